@@ -75,9 +75,11 @@ def _drive_codes(ctx, mon, codes, stratum):
     nontriv = 0
     before = mon.n_violations
     for code in codes:
-        U.hex2rgb(code)
-        U.hex2rgbstr(code)
-        U.hex2html(code)
+        for fn in (U.hex2rgb, U.hex2rgbstr, U.hex2html):
+            try:
+                fn(code)
+            except Exception:
+                pass  # the monitor has recorded the raise as a violation
         n += 1
         c = code.lstrip("#")
         if len(c) == 3 or any(ch.isalpha() for ch in c):
@@ -102,7 +104,10 @@ def worker(ctx, shard):
                     raise RuntimeError("oracle self-check failed at %d" % i)
         seen = set()
         for i in range(lo, hi):
-            nm = U.int2name(i)
+            try:
+                nm = U.int2name(i)
+            except Exception:
+                continue  # recorded by the monitor
             seen.add(nm)
         n = hi - lo
         if mon.n_violations == 0:
